@@ -7,11 +7,18 @@
             wild   : the gateway is configured as "*.gw.test" (request host foo.gw.test), else "gw.test"
             sub    : UseSubdomains          inl : InlineDNSLink       gwnodl : PublicGateway.NoDNSLink
             paths  : "both" = {/ipfs,/ipns} | "ipfs" = {/ipfs}        nodl   : Config.NoDNSLink
-     req = [hf, xfh, port, https, ns, id, segs, q, recs]
+     req = [hf, xfh, form, https, ns, id, segs, q, recs, gwrec]
             hf     : host form  "gw" (Host = gateway, path /ns/id/segs) | "sub" (Host = id.ns.gateway, path
                      /segs) | "other" (Host = id, a foreign FQDN, path /segs)
             xfh    : the logical host arrives in X-Forwarded-Host (reverse proxy), Host is internal
-            https  : X-Forwarded-Proto: https          port : host carries ":8080"
+            https  : X-Forwarded-Proto: https
+            form   : textual form of the (logical) host in Host / X-Forwarded-Host.  All forms name the same
+                     host (RFC 9110 4.2.3 / RFC 3986 6.2.2.1: host is case-insensitive; RFC 1034 3.1: a name
+                     may be written with the root label's trailing dot; the port is not part of the name):
+                     "plain" gw.test | "port" gw.test:8080 | "port80" gw.test:80 | "upper" GW.TEST (for a
+                     subdomain host the <ns>.<gateway> part, for a foreign host all of it) | "dot" gw.test.
+                     | "dotport" gw.test.:8080
+            gwrec  : the gateway's own host name (GwName) has a DNSLink record
             id     : content identifier term (below)   segs : remainder path segments ("" last = trailing /)
             q      : raw query string                  recs : names that have a DNSLink record
    Identifier terms [k, v, codec, base, mh, name]
@@ -23,7 +30,10 @@
             t = "status" : error/404 page with status `code`
             t = "redir"  : 301 to  scheme://text(id).ns.<gateway host>/segs?q
             t = "next"   : the wrapped handler is called with path pre+segs, pre = "nsid" (/ns/text(id)),
-                           "dnslink" (/ipns/<host>) or "none" (path untouched); ctx = which gateway context
+                           "dnslink" (/ipns/<name>, name = id.name), "gwdns" (/ipns/<name>/ns/text(id): the
+                           whole request path below the DNSLink site of the gateway's own host, name = the
+                           `name` field) or "none" (path untouched); ctx = which gateway context.
+                           <name> is a DNS name: the port is never part of it.
             t = "foreign": (only as built) 301 to a host outside the gateway, see Dev_C32_OpenRedirect.
 
    Route(cfg, req, D) is the decision structure of the code with one gate per named deviation (D = {}
@@ -34,7 +44,12 @@ CONSTANT LabelMax
 
 DevOpenRedirect == "Dev_C32_OpenRedirect"
 DevXFH          == "Dev_C32_ForwardedHostRedirectLoop"
-AllDevs         == {DevOpenRedirect, DevXFH}
+DevHostForm     == "Dev_C32_HostFormNotCanonical"
+AllDevs         == {DevOpenRedirect, DevXFH, DevHostForm}
+
+Forms        == {"plain", "port", "port80", "upper", "dot", "dotport"}
+NonCanon(f)  == f \in {"upper", "dot", "dotport"}      \* same host, but not the byte string of the configuration
+GwName(cfg)  == IF cfg.wild THEN <<"f","o","o",".","g","w",".","t","e","s","t">> ELSE <<"g","w",".","t","e","s","t">>
 
 ---------------------------------------------------------------------------
 (* identifier terms *)
@@ -66,7 +81,10 @@ Inlined(n)      == ~HasDot(n) /\ HasHyphen(n)      \* "looks like an inlined DNS
 ---------------------------------------------------------------------------
 (* outcomes *)
 Out(t, code, https, pre, ns, id, segs, q, ctx) ==
-  [t |-> t, code |-> code, https |-> https, pre |-> pre, ns |-> ns, id |-> id, segs |-> segs, q |-> q, ctx |-> ctx]
+  [t |-> t, code |-> code, https |-> https, pre |-> pre, ns |-> ns, id |-> id, segs |-> segs, q |-> q, ctx |-> ctx,
+   name |-> <<>>]
+\* the whole request path /ns/id/segs served below the DNSLink site `name` (the gateway's own host name)
+GwDns(cfg, req) == [Out("next", 200, FALSE, "gwdns", req.ns, req.id, req.segs, req.q, "dnslink") EXCEPT !.name = GwName(cfg)]
 Status(code)  == Out("status", code, FALSE, "none", "", NoId, <<>>, "", "")
 Norm(segs)    == IF segs = <<"">> THEN <<>> ELSE segs
 SubSegs(segs) == IF segs = <<>> THEN <<"">> ELSE segs           \* the request path of "/" is one empty segment
@@ -118,12 +136,22 @@ FromSub(s, req, ns, fallthrough) ==
 
 ---------------------------------------------------------------------------
 Route(cfg, req, D) ==
-  CASE req.hf = "gw" ->
+  CASE DevHostForm \in D /\ NonCanon(req.form) /\ req.hf # "other" ->
+         \* as built: the host text is looked up byte-wise (exact map / case-sensitive wildcard regexp, only a
+         \* port is stripped), so GW.TEST / gw.test. is neither a known gateway nor a subdomain of one and
+         \* the request falls through to the wildcard-DNSLink / plain branch
+         IF req.hf = "gw" /\ ~cfg.nodl /\ req.gwrec
+         THEN GwDns(cfg, req)             \* also for /ipfs/<cid>/..: other content than the path names
+         ELSE IF req.hf = "gw" THEN NextNsId(req, req.ns, req.id, req.segs, "plain")
+         ELSE Out("next", 200, FALSE, "none", "", NoId, SubSegs(req.segs), req.q, "plain")
+    [] req.hf = "gw" ->
          \* isKnownHostname(host): path gateway
          IF Handled(cfg, req.ns) THEN
             LET plain == NextNsId(req, req.ns, req.id, req.segs, "gw") IN
             IF cfg.sub THEN FromSub(ToSub(req.ns, req.id, req, cfg.inl, D), req, req.ns, plain) ELSE plain
-         ELSE Status(404)                 \* (the gateway host itself has no DNSLink record in this model)
+         \* not one of the gateway's paths: the host is served as a DNSLink site if it has a record
+         ELSE IF ~cfg.gwnodl /\ req.gwrec THEN GwDns(cfg, req)
+         ELSE Status(404)
     [] req.hf = "sub" ->
          IF req.ns \notin SubNS THEN
             \* knownSubdomainDetails: not a subdomain of a known gateway; no DNSLink for the whole host
@@ -178,7 +206,12 @@ LabelOK(id) == IF id.k = "dns" THEN (~HasDot(id.name) => Len(id.name) <= LabelMa
 IdentityPreserved(cfg, req, o) ==
   /\ o.t \in {"redir", "next"} /\ o.pre = "nsid" => Ident(o.ns, o.id, req.recs) = Ident(req.ns, req.id, req.recs)
   /\ o.t = "next" /\ o.pre = "dnslink" => req.hf = "other" /\ o.id = req.id
-  /\ o.t = "next" /\ o.pre = "none" => req.hf # "gw"
+  \* only a path the gateway does not serve itself is content of the gateway host's own DNSLink site, and
+  \* the site is named by the host NAME (whatever its textual form, never with the port)
+  /\ o.t = "next" /\ o.pre = "gwdns" => /\ req.hf = "gw" /\ ~Handled(cfg, req.ns)
+                                        /\ o.name = GwName(cfg) /\ o.ns = req.ns /\ o.id = req.id
+  \* a host that addresses content (<id>.<ns>.<gateway>) is never passed on without its content root
+  /\ o.t = "next" /\ o.pre = "none" => req.hf = "other" \/ (req.hf = "sub" /\ req.ns \notin SubNS)
   /\ o.t \notin {"foreign"}
 RestPreserved(req, o) ==
   o.t \in {"redir", "next"} => Norm(o.segs) = Norm(req.segs) /\ o.q = req.q
@@ -192,6 +225,10 @@ FollowReaches(cfg, req, o, f) ==
   o.t = "redir" => /\ f.t = "next" /\ f.pre = "nsid"
                    /\ Ident(f.ns, f.id, req.recs) = Ident(req.ns, req.id, req.recs)
                    /\ Norm(f.segs) = Norm(req.segs) /\ f.q = req.q
+\* the same host in another textual form (port, case, trailing dot) addresses the same content: the whole
+\* routing (identity, remainder, query, and the routing of the followed redirect) is that of the plain form
+PlainReq(req) == [req EXCEPT !.form = "plain"]
+FormIndependent(cfg, req, D) == Full(cfg, req, D) = Full(cfg, PlainReq(req), D)
 PropertyOf(cfg, req, o, f) ==
   /\ IdentityPreserved(cfg, req, o) /\ RestPreserved(req, o) /\ LabelFits(o)
   /\ InlinedForTLS(cfg, req, o) /\ FollowReaches(cfg, req, o, f)
